@@ -205,7 +205,15 @@ class RoundTrip(Sub):
         if zone_tok == "z":
             req(r.timezone_name == dt.timezone_name, "from_format with 'z' does not restore the zone name", got=r.timezone_name, expected=dt.timezone_name)
         # a string that does not match the format must be rejected
-        for bad in (s + "x", s[:-1] if zone_tok != "z" else s + "/", "x" + s):
+        bads = [s + "x", s[:-1] if zone_tok != "z" else s + "/", "x" + s]
+        if zone_tok == "z":
+            # strings whose zone part looks like a zone but is not one: a bare region / directory of the tz database, an unknown city
+            zn = dt.timezone_name
+            stem = s[: len(s) - len(zn)]
+            if s.endswith(zn):
+                bads += [stem + zn.split("/")[0] if "/" in zn else stem + "Nowhere", stem + "/".join(zn.split("/")[:-1]) if zn.count("/") >= 1 else stem + "Europe",
+                         stem + zn + "_City", stem + "America/Argentina", stem + "Etc"]
+        for bad in bads:
             if bad == s:
                 continue
             try:
